@@ -172,3 +172,30 @@ func Census(allowThreads ...string) string {
 
 // Hex renders bytes compactly.
 func Hex(b []byte) string { return fmt.Sprintf("%x", b) }
+
+// Event is one step of a history.
+type Event struct {
+	Name string
+	Run  func()
+}
+
+// Hist enumerates every event history of the given depth: at each step every
+// enabled event is an alternative (free choice), the system is run to quiescence
+// and settle compares it with the reference model.
+func Hist(depth int, events func() []Event, settle func()) {
+	for d := 0; d < depth; d++ {
+		evs := events()
+		if len(evs) == 0 {
+			return
+		}
+		e := evs[ChooseFree(len(evs))]
+		Tracef("event %s", e.Name)
+		Observe("%s", e.Name)
+		e.Run()
+		Quiesce()
+		settle()
+	}
+}
+
+// Sleep advances virtual time by d (all timers due in between fire, in order).
+func Sleep(d time.Duration) { time.Sleep(d) }
